@@ -60,6 +60,21 @@ def dup_header(rng, h, k):
         return first + rng.choice([' ', '\t', '  ']) + rng.choice(['sample=normal', 'copy %d' % k, 'B', 'sample=tumour 2']), 'b'
     return h, 'c'
 
+def gen_seed(rng):
+    """--seed values (type=int): 0 and other falsy-looking / boundary values, small, large, negative; None = no --seed"""
+    x = rng.random()
+    if x < 0.25:
+        return 0
+    if x < 0.35:
+        return rng.choice([1, -1, 2])
+    if x < 0.45:
+        return -rng.randrange(1, 2 ** 31)
+    if x < 0.52:
+        return rng.choice([2 ** 32, 2 ** 63 + 5, 10 ** 30])
+    if x < 0.57:
+        return None
+    return rng.randrange(0, 2 ** 31)
+
 def gen_case(rng, names, i):
     enzyme = rng.choice([None, 'trypsin', 'trypsin', 'trypsin', rng.choice(names), rng.choice(names)])
     method = 'shuffle' if rng.random() < 0.55 else 'reverse'
@@ -96,7 +111,7 @@ def gen_case(rng, names, i):
                 pattern=rng.choice(['', '', 'K,R', 'K', 'KR', 'P,,A', 'K,R,P', 'C,D']),
                 max_attempts=rng.choice([0, 1, 2, 3, 5, 30, 30]),
                 decoy_string=rng.choice(['DECOY_', 'rev_', '_REV', 'XXX|']), position=rng.choice(['prefix', 'prefix', 'suffix']),
-                order=order, seed=rng.randrange(0, 2 ** 31), width=rng.choice([0, 0, 60, 7]),
+                order=order, seed=gen_seed(rng), perturb=rng.sample(range(1, 10 ** 6), 3), width=rng.choice([0, 0, 60, 7]),
                 orders=[targets, perm], rerun=True, dupkinds=dupkinds)
 
 def gen_unit(rng, names, i):
@@ -299,7 +314,14 @@ def evaluate(ctx, cases):
                 stats['run:differs from both models'] += 1
                 viol.append(dict(what='decoyFasta output differs from the proved model and from the faithful model although the '
                                       'statement holds on it', replay_obj=dict(rep, name='corr:C20/run'), no_input=True, _harmless=True))
-        # order independence (same seed, two input orders), reproducibility (same order twice)
+        # order independence (same seed, two input orders), reproducibility (same order twice); the worker puts the
+        # process-global generator into a different state before each of the three runs.  Without --seed a shuffle
+        # is random by design: nothing to compare.
+        stats['seed/' + ('none' if c.get('seed') is None else '0' if c['seed'] == 0 else 'negative' if c['seed'] < 0 else
+                         'huge' if c['seed'] >= 2 ** 32 else 'other')] += 1
+        if c.get('seed') is None and c['method'] == 'shuffle':
+            stats['unseeded shuffle (no comparison)'] += 1
+            continue
         if len(outs) == 2 and outs[0]['status'] == 'ok' and outs[1]['status'] == 'ok':
             s0 = sorted(map(tuple, outs[0]['records'])); s1 = sorted(map(tuple, outs[1]['records']))
             if s0 != s1:
@@ -313,8 +335,8 @@ def evaluate(ctx, cases):
                             yield tsq
                 sig = bk == 0 and c['method'] == 'shuffle' and all(any(q in dups for q in owner_seq(h)) for h, _ in diff)
                 stats['order-dependent' + ('(C20-dup-order)' if sig else '')] += 1
-                viol.append(dict(what='record set depends on the input order (same seed): %d records differ; method %s; targets %s'
-                                      % (len(diff), c['method'], json.dumps(c['orders'][0])[:200]),
+                viol.append(dict(what='record set depends on the input order (same seed %s): %d records differ; method %s; targets %s'
+                                      % (c.get('seed'), len(diff), c['method'], json.dumps(c['orders'][0])[:200]),
                                  replay_obj={'kind': 'case', 'case': dict(c, rerun=False), 'impl': outs},
                                  no_input=False, finding='C20-dup-order' if sig else None,
                                  _size=sum(len(t[1]) for t in c['orders'][0])))
@@ -322,7 +344,7 @@ def evaluate(ctx, cases):
                 stats['order-independent'] += 1
         if 'rerun' in r:
             if r['rerun'].get('records') != outs[0].get('records') or r['rerun']['status'] != outs[0]['status']:
-                viol.append(dict(what='same --seed, same input, different output', no_input=False,
+                viol.append(dict(what='same --seed (%s), same input, different ambient random state before the run: different output' % c.get('seed'), no_input=False,
                                  replay_obj={'kind': 'case', 'case': c, 'impl': [outs[0], r['rerun']]}))
             else:
                 stats['reproducible'] += 1
